@@ -27,6 +27,8 @@ pub enum Expect {
     /// new absolute position
     Unit(usize),
     Bytes(Vec<u8>),
+    /// the call may transfer any non-empty prefix of these bytes (read_vectored)
+    BytesUpTo(Vec<u8>),
     /// destination bytes, advance
     Copy(Vec<u8>, usize),
     MustErr,
@@ -111,6 +113,24 @@ impl RdModel {
                 let bytes = (0..len).map(|i| self.bits.field(pos + 8 * i, 8, self.e, self.zx).unwrap() as u8).collect();
                 Expect::Bytes(bytes)
             }
+            ROp::IoReadExact(len) => {
+                let len = *len as usize;
+                if !info.io {
+                    return Expect::Disabled;
+                }
+                if !end_ok(pos + 8 * len) {
+                    return if self.zx { Expect::Disabled } else { Expect::MustErr };
+                }
+                Expect::Bytes((0..len).map(|i| self.bits.field(pos + 8 * i, 8, self.e, self.zx).unwrap() as u8).collect())
+            }
+            ROp::IoReadVec(a, b, c) => {
+                let len = (*a + *b + *c) as usize;
+                // only where the whole request lies inside the stream (how much of it one call takes is free)
+                if !info.io || !end_ok(pos + 8 * len) {
+                    return Expect::Disabled;
+                }
+                Expect::BytesUpTo((0..len).map(|i| self.bits.field(pos + 8 * i, 8, self.e, self.zx).unwrap() as u8).collect())
+            }
             ROp::SetPos(p) => {
                 if !info.seek || *p as usize > l {
                     return Expect::Disabled;
@@ -191,6 +211,15 @@ pub fn judge(exp: &Expect, obs: &RObs, pos: usize) -> Result<Option<usize>, (Str
                 bad("bytes", format!("expected {} got {}", hex(b), hex(x)))
             } else {
                 Ok(Some(pos + 8 * b.len()))
+            }
+        }
+        (Expect::BytesUpTo(b), RObs::Bytes(x, c)) => {
+            if *c > b.len() || (*c == 0 && !b.is_empty()) {
+                bad("count", format!("read_vectored returned {} for {} bytes of room inside the stream", c, b.len()))
+            } else if b[..*c] != x[..*c] {
+                bad("bytes", format!("read_vectored delivered {} where the stream holds {}", hex(&x[..*c]), hex(&b[..*c])))
+            } else {
+                Ok(Some(pos + 8 * c))
             }
         }
         (Expect::Copy(b, adv), RObs::Copy(x)) => {
